@@ -265,6 +265,8 @@ def run(prog: Program) -> Results:
     if n_fn < 3:
         res.unclass(f"only {n_fn} functions testing raw scalar types were found in the expression modules (expected coerce_expression, "
                     f"_primitive_cls_from_value, NixList.rebuild.<render_item>, ...)")
+    from sa.rules.c01 import no_greedy_strip
+    no_greedy_strip(prog, res, "R-C13-6")
     res.assumptions = ["Nix float grammar: a float literal needs a dot; list elements admit only select-level expressions"]
     return res
 
